@@ -93,7 +93,19 @@ def grep_sources():
 
 
 def proof_side(prop: str, tier: str):
-    """returns dict(obligations=[names], discharged=[names], broken=[(name, why)], log=str)"""
+    """returns dict(obligations=[names], discharged=[names], broken=[(name, why)], log=str).
+    Serialised across concurrent `./check` invocations (they share Generated.lean and the lake build directory)."""
+    import fcntl
+    lock_path = os.path.join(LEAN_DIR, ".verif_build.lock")
+    with open(lock_path, "w") as lk:
+        fcntl.flock(lk, fcntl.LOCK_EX)
+        try:
+            return _proof_side(prop, tier)
+        finally:
+            fcntl.flock(lk, fcntl.LOCK_UN)
+
+
+def _proof_side(prop: str, tier: str):
     mod = importlib.import_module(f"harness.props.{prop.lower()}")
     obligations = list(getattr(mod, "OBLIGATIONS", []))
     res = {"obligations": obligations, "discharged": [], "broken": [], "log": "", "axioms": {}}
